@@ -143,33 +143,13 @@ theorem C12_nested_request_answered (ops : List Op) (kd : Kind) (m : Matcher) (c
     let h := (run ops).nmsg
     let s' := run (ops ++ [.create kd m, .awaitF k, .arrive c μ, .finish h])
     (∃ w, s'.ws[k]? = some w ∧ w.fut = .result h) ∧
-    (∀ h0 hd, (run ops).hs[h0]? = some hd → s'.hs[h0]? = some hd) := by
+    (∀ (h0 : Nat) (hd : Handling), (run ops).hs[h0]? = some hd → s'.hs[h0]? = some hd) := by
   intro k h s'
-  have hs' : s' = step (step (step (step (run ops) (.create kd m)) (.awaitF k)) (.arrive c μ)) (.finish h) := by
-    simp [s', run, List.foldl_append]
-  generalize hs : run ops = s at *
-  have hk : k = s.ws.length := rfl
-  have hh : h = s.hs.length := rfl
-  -- after create + awaitF: the new waiter is pending, listed, awaiting
-  let w0 : Waiter := { m := m, kind := kd, started := true, awaiting := true }
-  have h2 : step (step s (.create kd m)) (.awaitF k) =
-      { s with ws := s.ws ++ [w0] } := by
-    simp [step, hk, State.put, w0]
-  have h3 : step (step (step s (.create kd m)) (.awaitF k)) (.arrive c μ) =
-      { s with ws := s.ws ++ [w0], hs := s.hs ++ [{ μ := μ, c := c }] } := by
-    rw [h2]; simp [step]
-  rw [hs', h3]
-  have hhit : hit μ w0 = true := by simp [hit, w0, FStatus.done, hm]
-  constructor
-  · refine ⟨resolveW μ h w0, ?_, by simp [resolveW, hhit]⟩
-    simp [step, hh, deliver_eq, hk]
-  · intro h0 hd h0d
-    have hlt : h0 < s.hs.length := (List.getElem?_eq_some_iff.mp h0d).1
-    have hne : s.hs.length ≠ h0 := by omega
-    simp only [step, hh, List.getElem?_append_right (Nat.le_refl _), Nat.sub_self, List.getElem?_cons_zero,
-      Bool.false_eq_true, if_false]
-    rw [List.getElem?_set, if_neg hne, List.getElem?_append_left hlt]
-    exact h0d
+  have hs' : s' = step (step (step (step (run ops) (.create kd m)) (.awaitF (run ops).ws.length)) (.arrive c μ))
+      (.finish (run ops).hs.length) := by
+    simp [s', k, h, State.nmsg, run, List.foldl_append]
+  rw [hs']
+  exact nested_step (run ops) kd m c μ hm
 
 /-- Once a caller's timeout has fired (and nobody cancelled the caller) the only answer it can get
 is `TimeoutError`; when the scheduled callbacks have run it has got it. -/
